@@ -472,10 +472,12 @@ func runC07Child(line string) {
 			ctl.pump()
 			ctl.reap()
 			if feed == "data" {
-				// consumed once the read loop has come back from the read
-				if p := ctl.get("R"); p != nil && p.state == "parked" && p.at == "chan.read.post" {
-					feed = "quiet"
-				}
+				// consumed once the transport has delivered it to the read loop (never after Close)
+				pipe.Snapshot(func() {
+					if pipe.Delivered == pipe.Emitted {
+						feed = "quiet"
+					}
+				})
 			}
 			switch tok {
 			case "Ed", "Ee", "Ex":
@@ -503,9 +505,6 @@ func runC07Child(line string) {
 					if !closed {
 						p.state = "running"
 						ctl.await("R", c07TBlock)
-						if feed == "data" && p.state == "parked" {
-							feed = "quiet"
-						}
 					}
 				}
 				return true
